@@ -105,7 +105,7 @@ fn check_supply(seed: u64) -> i32 {
             for dem in [u64::MAX, u64::MAX - 1, u64::MAX - q / 2, u64::MAX - q, (1u64 << 63) + 5, q, q + 1, 2 * (q / 2) + 1, (1u64 << 53) + 1] {
                 let exp = st_spec(pp, qq, dd, dem as u128);
                 if exp > u64::MAX as u128 { continue; }   // outside the representable range: nothing is claimed
-                if dem as u128 + 2 * pp > u64::MAX as u128 { continue; }   // outside the documented magnitude envelope (known finding KF15)
+                if kind == 2 && dem as u128 + pp > u64::MAX as u128 { continue; }   // Constrained: intermediate sum demand + period overflows (known finding KF15)
                 let got = guarded(|| ud(sb.service_time(s(dem))));
                 if got != Ok(exp as u64) { return fail("supply::service_time", format!("{{\"supply\": {}, \"demand\": {}}}", desc, dem), format!("{:?}", got), format!("{}", exp)); }
             }
